@@ -71,6 +71,7 @@ fn main() {
         let n = rep["violations"].as_array().map(|a| a.len()).unwrap_or(0);
         std::process::exit(if n > 0 { 1 } else { 0 });
     }
+    vh::report::start_spin_monitor(out.clone(), id.clone(), if tier == Tier::Quick { "quick".into() } else { "thorough".into() }, seed);
     let lanes = vh::lanes::run(&ctx, &id, lane.as_deref());
     let doc = json!({
         "property_id": id,
